@@ -517,6 +517,12 @@ fn number_format_battery(seed: u64, extra: usize, fail: &mut dyn FnMut(&str, Str
                 batch.push(("parseInt".into(), format!("sig=parseInt(radix-{})", if radix == 10 { "10" } else { "power-of-two" }),
                             format!("String(parseInt('{}', {}) === {})", text, radix, lit), "true".into()));
             }
+            // radix literals and Number("0x..") / ("0o..") / ("0b..") of any length
+            for (radix, pfx) in [(16u32, "0x"), (8, "0o"), (2, "0b")] {
+                let text = ref_to_radix(y, radix);
+                batch.push(("radix_literal".into(), "sig=literal(0x/0o/0b)".into(), format!("String({}{} === {})", pfx, text, lit), "true".into()));
+                batch.push(("string_to_number_radix_prefix".into(), "sig=Number(0x/0o/0b)".into(), format!("String(Number('{}{}') === {})", pfx, text, lit), "true".into()));
+            }
             if y < 9007199254740992.0 {
                 for radix in [3u32, 7, 36] {
                     batch.push(("parseInt".into(), "sig=parseInt(radix-other,<2^53)".into(),
@@ -537,7 +543,9 @@ fn number_format_battery(seed: u64, extra: usize, fail: &mut dyn FnMut(&str, Str
         ("1 / parseInt('-0')", "-Infinity"), ("parseInt('123456789012345678901234567890')", "1.2345678901234568e+29"),
         ("parseInt('9007199254740993')", "9007199254740992"), ("parseInt('9007199254740995')", "9007199254740996"),
         ("parseInt('7fffffffffffffff', 16)", "9223372036854776000"), ("parseInt('ffffffffffffffffffffffffffffffffffff', 16)", "2.2300745198530623e+43"),
-        ("parseInt('1'.repeat(400))", "Infinity"), ("parseInt('1' + '0'.repeat(200), 2) === 2 ** 200", "true"),
+        ("parseInt('1'.repeat(400))", "Infinity"), ("0xFFFFFFFFFFFFFFFFFF", "4.722366482869645e+21"), ("0xFFFFFFFFFFFFFFFF", "18446744073709552000"),
+        ("Number('0x+1')", "NaN"), ("Number('0x')", "NaN"), ("Number('0b12')", "NaN"), ("Number('-0x10')", "NaN"), ("0x20000000000001", "9007199254740992"), ("0x20000000000003", "9007199254740996"),
+        ("0b1", "1"), ("1_000.5", "1000.5"), (".5e1", "5"), ("5.e1", "50"), ("1E3", "1000"), ("0.1e-400", "0"), ("1e400", "Infinity"), ("0XfF", "255"), ("0B11", "3"), ("0O7", "7"), ("parseInt('1' + '0'.repeat(200), 2) === 2 ** 200", "true"),
         ("parseInt('1' + '0'.repeat(52) + '1' + '0'.repeat(80) + '1', 2) === 2 ** 134 + 2 ** 82", "true"),
     ] {
         batch.push(("parse_prefix_table".into(), format!("sig=table:{}", expr.split('(').next().unwrap_or("")), format!("String({})", expr), want.to_string()));
